@@ -25,7 +25,7 @@
    Not modelled: root-node keys (0x06; always present for a root listed in the
    metadata in the histories considered), write logs, multipart restore (Crash.v),
    Badger's physical GC (SetDiscardTs only drops versions no read can see). *)
-From Verif Require Import Lib.Base NodeDB.Spec.
+From Verif Require Import Lib.Base NodeDB.Spec NodeDB.PathBadger.
 
 Record raux := mkaux { a_puts : list N; a_removed : list N; a_reach : list N; a_inl : list N }.
 
@@ -193,9 +193,10 @@ Fixpoint b_observe (d : bdb) (k : list (N * N)) (h : list op) : list obs :=
         :: b_observe d' k' t
   end.
 
-(* ---- the case files: ((ops, compare_pathbadger), (badger obs, pathbadger obs)) ---- *)
-Definition run_case (c : list op * bool) : list obs * list obs :=
-  (b_observe bdb0 [] (fst c), if snd c then s_observe sdb0 [] (fst c) else []).
+(* ---- the case files: ((ops, pathbadger ops), (badger obs, pathbadger obs)); the pathbadger
+   operation list is empty when pathbadger rejected a shape it does not support ---- *)
+Definition run_case (c : list op * list pop) : list obs * list obs :=
+  (b_observe bdb0 [] (fst c), p_observe pdb0 [] (snd c)).
 
 Definition case_eqb (a b : list obs * list obs) : bool :=
   list_eqb obs_eqb (fst a) (fst b) &&
